@@ -44,7 +44,7 @@ TEXTS = {
     "C06": {
         "text": "Lean theorems: whitespace reduction to counters, layout-invariance of TokenSpacing for all kind sequences "
                 "(spacing_layout_invariant: amount of blanks; spacing_space_or_break: a space and a line break with any indentation "
-                "are the same gap - true since repair b68b46e), blank-line clamp; translator obligation layout_is_read_only_at_known_sites (every read of a token's original whitespace, line-break count or the newline string in the parser and in every rule, regenerated from the Rust source on every run); C06_format_full_checked / C06_format_full: for the closed model of the whole formatter (formatFull: scanner, parser control flow, consolidators, rules, wrapper stage with the search inside, reconstructor) two layouts of the same tokens are formatted to the same bytes whenever the decidable premise layoutPremisesB holds for the pair: same token types and texts, same blank-line grouping, identical bytes before verbatim tokens, GapEqW (a gap's emptiness matters only between a literal/unknown token and a token that can keep its spacing, and before the end-of-file token), same line-break flags after the first asm keyword, every token written by a first-phase solution of the wrapper in the first run (fails exactly where the wrapper finds no solution: F34), and every token behind a trailing line comment that could keep the input's spaces starts a line in the result (TokenSpacing gives such a token no spacing; the model's token_lengths masks it, which the wsearch/full correspondences validate). No contract on parser or wrapper: the parser model reads line breaks only behind an asm keyword (parse_layout_independent, by construction of parseFileMasked), the search model reads tokens only through FTok.sview (kind, last-line length) and the configuration through Config.searchCfg (search_reads_views_only), and a relational proof carries two related token states through the whole wrapper stage (Proofs/LayoutStage, LayoutFull). The premise is evaluated by the driver on every pair of the relayout stream (full2: info_c06; holds on about 98 % of the random pairs; the rest are pairs in which a gap between a literal and an identifier-like token is empty in one layout only), next to the byte comparison of both model outputs with the real formatter and the relayout oracle on the real code.",
+                "are the same gap - true since repair b68b46e), blank-line clamp; translator obligation layout_is_read_only_at_known_sites (every read of a token's original whitespace, line-break count or the newline string in the parser and in every rule, regenerated from the Rust source on every run); C06_format_full_checked / C06_format_full: for the closed model of the whole formatter (formatFull: scanner, parser control flow, consolidators, rules, wrapper stage with the search inside, reconstructor) two layouts of the same tokens are formatted to the same bytes whenever the decidable premise layoutPremisesB holds for the pair: same token types and texts, same blank-line grouping, identical bytes before verbatim tokens, GapEqW (a gap's emptiness matters only between a literal/unknown token and a token that can keep its spacing, and before the end-of-file token), same line-break flags after the first asm keyword, every token written by a first-phase solution of the wrapper in the first run (fails exactly where the wrapper finds no solution: F34), and every token behind a trailing line comment that could keep the input's spaces starts a line in the result - proved for every token a solution writes (search_breaks_where_it_must: an invariant over the whole search, the decision at a MustBreak requirement is a break; wrapper_breaks_after_line_comment; C06_format_full_checked' with the equivalent premise set layoutPremisesB', which the driver evaluates), still checked for verbatim and end-of-file tokens (TokenSpacing gives such a token no spacing; the model's token_lengths masks it, which the wsearch/full correspondences validate). No contract on parser or wrapper: the parser model reads line breaks only behind an asm keyword (parse_layout_independent, by construction of parseFileMasked), the search model reads tokens only through FTok.sview (kind, last-line length) and the configuration through Config.searchCfg (search_reads_views_only), and a relational proof carries two related token states through the whole wrapper stage (Proofs/LayoutStage, LayoutFull). The premise is evaluated by the driver on every pair of the relayout stream (full2: info_c06; holds on about 98 % of the random pairs; the rest are pairs in which a gap between a literal and an identifier-like token is empty in one layout only), next to the byte comparison of both model outputs with the real formatter and the relayout oracle on the real code.",
         "design_ref": "DESIGN.md section 5 (C06), 12.8",
         "note": "Lines without a wrapping solution (F34, where the property is false) and the 2 % of pairs outside the premise are decided by the relayout oracle and the full2 correspondence only. The model is tied to the code by differential execution (full, full2, pfull, wsearch streams).",
         "technique": "Lean 4 proof over the closed executable model (relational, unbounded) + per-pair premise evaluation + differential correspondence + metamorphic relayout oracle",
@@ -97,7 +97,7 @@ TEXTS = {
     },
     "C09": {
         "text": "Lean theorems: for fixed counters the crlf rendering equals the lf rendering with terminators substituted; every emitted "
-                "break is the configured newline; whitespace counters ignore CR. C09_format_full_crlf_config: for the closed model of the whole formatter (search inside) formatting with crlf gives exactly the lf result with each terminator substituted, under the decidable premise crlfOk computed from the lf run (every multi-line literal ends in a quote; both runs rewrite the same literals; nothing emitted verbatim holds a line break) - the search cannot see the line ending (Config.searchCfg, FTok.sview); mls_rewrite_crlf: the re-indenter's two results differ exactly by the substitution; counterexample theorems show each premise is needed. The premise is tallied on every case of the full stream (info_c09: holds on about 78 %). C09_input_endings_full_checked (third clause): the same text with LF and with CRLF line breaks are two layouts of the same tokens, so the layout theorem applies whenever its decidable premise holds for the pair (no token containing a line break, no verbatim token with one before it): both are formatted to the same bytes; evaluated on every pair of the input_endings stream (info_c06: about 90 %). The lf/crlf and LF/CRLF-input relations are also checked "
+                "break is the configured newline; whitespace counters ignore CR. C09_format_full_crlf_config: for the closed model of the whole formatter (search inside) formatting with crlf gives exactly the lf result with each terminator substituted, under the decidable premise crlfOk23 computed from the lf run (both runs rewrite the same literals; nothing emitted verbatim holds a line break; that every multi-line literal reaching the wrapper ends in a quote is proved: C09_crlfOk_of_23 via the converse literal-kind invariant of the parser model) - the search cannot see the line ending (Config.searchCfg, FTok.sview); mls_rewrite_crlf: the re-indenter's two results differ exactly by the substitution; counterexample theorems show each premise is needed. The premise is tallied on every case of the full stream (info_c09: holds on about 78 %). C09_input_endings_full_checked (third clause): the same text with LF and with CRLF line breaks are two layouts of the same tokens, so the layout theorem applies whenever its decidable premise holds for the pair (no token containing a line break, no verbatim token with one before it): both are formatted to the same bytes; evaluated on every pair of the input_endings stream (info_c06: about 90 %). The lf/crlf and LF/CRLF-input relations are also checked "
                 "as oracles on the real formatter for every case.",
         "design_ref": "DESIGN.md section 5 (C09), 12.8",
         "note": "Known findings F25, F35 (both about line-spanning tokens, outside the premises). Trusted: "
